@@ -629,33 +629,61 @@ def r143(ctx, rep, f, ev, cg, reach):
     if clo not in f.fns:
         rep.missing("R14.3", clo)
         return
-    ev.watch = lambda c: "flume::Sender" in c or c.endswith("collect_system_specific_stats") or c.endswith("TriggerStats::collect_stats")
-    recs = _recs(ev, clo, [Sym("env")], follow=lambda c: c.startswith("fastpasta::analyze::lib::") and "{closure" not in c)
-    it = "sym(payload(sym(call:<core::slice::iter::Iter<'a, T> as core::iter::traits::iterator::Iterator>::next("
-    hb = [o for o in recs if "assign" in o and o["assign"][0] == "AddAssign"]
-    ok = len(hb) == 1 and hb[0]["assign"][2].startswith("sym(boolcast(Eq(" + it) and hb[0]["assign"][2].endswith(",0x1)))") and "stop_bit" in hb[0]["assign"][2]
-    rep.check(ok, "R14.3", "R14.3|hbf|increment", "per analysed RDH: hbfs_seen += (stop_bit == 1)", W, "HBF increment: %s" % [o["assign"][2][-120:] for o in hb])
-    sends = [o for o in recs if "call" in o and o["call"].endswith("::send")]
-    tt = [o for o in sends if o["args"][1].startswith("StatType::TriggerType(")]
-    cs_ = [o for o in recs if "call" in o and o["call"].endswith("TriggerStats::collect_stats")]
-    if tt:
-        ok = len(tt) == 1 and not cs_ and tt[0]["args"][1].startswith("StatType::TriggerType(0=" + it) and tt[0]["args"][1].endswith(".rdh2.trigger_type))") and hb and tuple(tt[0]["guard"]) == tuple(hb[0]["guard"])
+    # the per-RDH step of the analysis thread, decided for one RDH (RDHV) per value of its stop bit (0, 1, 2) with the
+    # slice iterator yielding that RDH: the HBF counter grows by one exactly for stop_bit == 1, one TriggerType (or one
+    # local collect_stats) and one collect_system_specific_stats per RDH whatever the stop bit, one HBFsSeen per batch
+    inc_val = {"0x1": 1, "0x0": 0, "sym(boolcast(true))": 1, "sym(boolcast(false))": 0}
+    per = {}
+    cs_ = []
+    for sb in (0, 1, 2):
+        ev.call_hooks = [(lambda fn_, r_: (r_ or fn_).endswith("slice::iter::Iter<'a, T> as core::iter::traits::iterator::Iterator>::next"),
+                          lambda n, a: Agg("core::option::Option", "Some", {"0": Sym("RDHV")})),
+                         (lambda fn_, r_: fn_.endswith("::stop_bit"), lambda n, a, sb=sb: Bits.const(sb, 8)),
+                         (lambda fn_, r_: fn_.endswith("::trigger_type"), lambda n, a: Sym("TT_OF:" + vkey(a[0])))]
+        ev.watch = lambda c: "flume::Sender" in c or c.endswith("collect_system_specific_stats") or c.endswith("TriggerStats::collect_stats")
+        try:
+            recs = [o for o in _recs(ev, clo, [Sym("env")], follow=lambda c: c.startswith("fastpasta::analyze::lib::") and "{closure" not in c)
+                    if not any(g in ("false", "not true") for g in o.get("guard", ()))]
+        except Unsupported as e:
+            rep.bad("R14.3", "R14.3|hbf|increment", "the analysis loop cannot be evaluated: %s" % e, W)
+            ev.call_hooks, ev.watch = [], None
+            return
+        finally:
+            ev.call_hooks = []
+            ev.watch = None
+        und = lambda o: tuple(g for g in o["guard"] if g not in ("true", "not false"))
+        incs = [o for o in recs if "assign" in o and o["assign"][0] == "AddAssign"]
+        sends = [o for o in recs if "call" in o and o["call"].endswith("::send")]
+        per[sb] = dict(
+            inc=sum(inc_val.get(o["assign"][2], 99) for o in incs), inc_g=[und(o) for o in incs], inc_raw=[len(o["guard"]) for o in incs],
+            tt=[(o["args"][1], und(o)) for o in sends if o["args"][1].startswith("StatType::TriggerType(")],
+            cst=[(o["args"][1], und(o)) for o in recs if "call" in o and o["call"].endswith("TriggerStats::collect_stats")],
+            css=[(o["args"][0], und(o)) for o in recs if "call" in o and o["call"].endswith("collect_system_specific_stats")],
+            hs=[(o["args"][1], und(o), len(o["guard"])) for o in sends if o["args"][1].startswith("StatType::HBFsSeen(")],
+            tsend=[(o["args"][1], und(o), len(o["guard"])) for o in sends if "TriggerStats" in o["args"][1].split("(")[0]])
+        if sb == 1:
+            cs_ = per[sb]["cst"]
+    ok = all(per[sb]["inc"] == (1 if sb == 1 else 0) for sb in per) and all(len(set(per[sb]["inc_g"])) <= 1 for sb in per)
+    rep.check(ok, "R14.3", "R14.3|hbf|increment", "per analysed RDH: hbfs_seen += (stop_bit == 1)", W, "HBF increment per stop bit value: %s" % {sb: per[sb]["inc"] for sb in per})
+    loop_g = per[1]["inc_g"][0] if per[1]["inc_g"] else None
+    if any(per[sb]["tt"] for sb in per):
+        ok = all(per[sb]["tt"] == [("StatType::TriggerType(0=sym(TT_OF:sym(RDHV)))", loop_g)] and not per[sb]["cst"] for sb in per)
         how = "one TriggerType(rdh.trigger_type()) message per analysed RDH"
     else:
         # counted locally per batch: collect_stats(rdh.trigger_type()) for every RDH, the local counters sent once per batch
-        ok = len(cs_) == 1 and hb and tuple(cs_[0]["guard"]) == tuple(hb[0]["guard"]) and cs_[0]["args"][1].startswith(it) and cs_[0]["args"][1].endswith(".rdh2.trigger_type)")
-        ts_send = [o for o in sends if "TriggerStats" in o["args"][1].split("(")[0]]
-        ok = ok and len(ts_send) == 1 and len(ts_send[0]["guard"]) == 1
+        ok = all(len(per[sb]["cst"]) == 1 and per[sb]["cst"][0][1] == loop_g and "TT_OF:sym(RDHV)" in per[sb]["cst"][0][0] for sb in per) \
+            and all(len(per[sb]["tsend"]) == 1 and per[sb]["inc_raw"] and per[sb]["tsend"][0][2] < min(per[sb]["inc_raw"] or [0]) for sb in (1,))
         how = "trigger bits of every analysed RDH counted into a batch-local TriggerStats that is sent once per batch"
-    rep.check(ok, "R14.3", "R14.3|trigger|per-rdh", how, W, "trigger type of each analysed RDH is not counted exactly once: TriggerType sends %s, collect_stats calls %s" % (
-        [(o["args"][1][-80:], len(o["guard"])) for o in tt], [(o["args"][1][-60:], len(o["guard"])) for o in cs_]))
-    hs = [o for o in sends if o["args"][1].startswith("StatType::HBFsSeen(")]
+    rep.check(ok, "R14.3", "R14.3|trigger|per-rdh", how, W, "trigger type of each analysed RDH is not counted exactly once: per stop bit value, TriggerType sends %s, collect_stats calls %s" % (
+        {sb: [(x[0][-60:], len(x[1])) for x in per[sb]["tt"]] for sb in per}, {sb: [(x[0][-60:], len(x[1])) for x in per[sb]["cst"]] for sb in per}))
     # one send per batch (outside the per-RDH loop) of a counter that starts at 0 in this batch
-    ok = len(hs) == 1 and hb and len(hs[0]["guard"]) < len(hb[0]["guard"]) and tuple(hb[0]["guard"][:len(hs[0]["guard"])]) == tuple(hs[0]["guard"]) \
-        and ("phi(0x0|" in hs[0]["args"][1] or "mut(0x0;" in hs[0]["args"][1])
-    rep.check(ok, "R14.3", "R14.3|hbf|per-batch", "one HBFsSeen(count of this batch) per received batch", W, "HBFsSeen sends: %s" % [(o["args"][1][:80], len(o["guard"])) for o in hs])
-    cs = [o for o in recs if "call" in o and o["call"].endswith("collect_system_specific_stats")]
-    rep.check(len(cs) == 1 and hb and tuple(cs[0]["guard"]) == tuple(hb[0]["guard"]), "R14.3", "R14.3|system-specific|per-rdh", "system specific statistics are collected for every analysed RDH", W)
+    hs = per[1]["hs"]
+    ok = len(hs) == 1 and per[1]["inc_raw"] and hs[0][2] < min(per[1]["inc_raw"]) and all(len(per[sb]["hs"]) == 1 for sb in per) \
+        and any(x in hs[0][0] for x in ("phi(0x0|", "mut(0x0;", "Add(0x0,"))
+    rep.check(ok, "R14.3", "R14.3|hbf|per-batch", "one HBFsSeen(count of this batch) per received batch", W, "HBFsSeen sends: %s" % [(x[0][:80], x[2]) for x in hs])
+    ok = all(per[sb]["css"] == [("sym(RDHV)", loop_g)] for sb in per)
+    rep.check(ok, "R14.3", "R14.3|system-specific|per-rdh", "system specific statistics are collected for every analysed RDH", W,
+              "collect_system_specific_stats calls per stop bit value: %s" % {sb: per[sb]["css"] for sb in per})
     # the loop runs over all RDHs of the batch
     b = Body(inline_fn(f, clo, lambda c: c.startswith("fastpasta::analyze::lib::") and "{closure" not in c))
     if cs_:
